@@ -543,6 +543,14 @@ func c05StartPool(cfg verifh.Cfg) (func(op []string) string, func()) {
 		}()
 		return int64(reflect.ValueOf(p.cond).Elem().FieldByName("notify").FieldByName("notify").Uint())
 	}
+	// inject pushes the sentinel and signals, by hand (not through Put: taking a waiter out must not depend
+	// on the code under test)
+	inject := func() {
+		spy.Lock()
+		p.head = &node{item: sentinel, next: p.head, lastUsed: timex.Now()}
+		p.cond.Signal()
+		spy.Unlock()
+	}
 	// runGet calls the real Get on its own goroutine: it either returns, or is SEEN entering cond.Wait.
 	// keepWaiting: a Get that waits stays pending (a later put hands it its resource); otherwise the harness
 	// takes one waiter out again by pushing a sentinel (pushed and popped at once: the pool is as before;
@@ -592,7 +600,7 @@ func c05StartPool(cfg verifh.Cfg) (func(op []string) string, func()) {
 				pending++
 				return fmt.Sprintf("waiting destroyed=%s", csv(dl))
 			}
-			p.Put(sentinel)
+			inject()
 			select {
 			case o := <-results:
 				if o.x != sentinel || o.pan {
@@ -716,7 +724,7 @@ func c05StartPool(cfg verifh.Cfg) (func(op []string) string, func()) {
 	}
 	return step, func() {
 		for ; pending > 0; pending-- { // let the waiting Gets of this section go
-			p.Put(sentinel)
+			inject()
 			select {
 			case <-results:
 			case <-time.After(time.Second):
